@@ -11,7 +11,7 @@ for d in sorted(glob.glob("/verif/seeded/*/")):
     if os.path.exists(notes):
         txt = open(notes).read()
         k = ((n - 1) % 3 + 1) if m.get("round") != 2 else (n - 3 if n - 3 in (1, 2, 3) else n)
-        if m.get("round") in (2, 3, 4, 5):
+        if m.get("round") in (2, 3, 4, 5, 6):
             k = None
             mm = re.search(r"section for patch (\d)", m.get("what_it_needs_to_manifest", ""))
             if mm: k = int(mm.group(1))
@@ -19,7 +19,7 @@ for d in sorted(glob.glob("/verif/seeded/*/")):
             mm = re.search(r"section for patch (\d)", m.get("what_it_needs_to_manifest", ""))
             k = int(mm.group(1)) if mm else None
         if k:
-            mm = re.search(r"^#+\s*[Pp]atch\s*%d[^\n]*" % k, txt, flags=re.M)
+            mm = re.search(r"^#+\s*(?:[Pp]atch|[Cc]hange)\s*%d[^\n]*" % k, txt, flags=re.M)
             if mm:
                 what = re.sub(r"^#+\s*", "", mm.group(0)).strip()
     det = m.get("detected_by", {})
@@ -29,6 +29,8 @@ for d in sorted(glob.glob("/verif/seeded/*/")):
             w = (v.get("what") or "").strip()
             kind = "correspondence/proof only (no-failing-input-found)" if w in ("", "[]") and any("no-failing" in l for l in v.get("lines", [])) else ("concrete input" if w not in ("", "[]") else "reported")
             cells.append(f"{pid}: {kind}")
+        elif m.get("neutralised") and pid == m.get("property"):
+            cells.append(f"{pid}: reported before the repair that made this change harmless; quiet on the repaired tree (see meta.json)")
         else:
             cells.append(f"{pid}: MISSED" if pid == m.get("property") else f"{pid}: quiet (not its property)")
     rows.append(f"| {name} | {what[:110].replace('|', '/')} | {'; '.join(cells) or 'not run'} |")
